@@ -98,6 +98,9 @@ func (e *Engine) generate() {
 			if isRefLike(p.Type()) {
 				s.assume(not(eq(v.L[0], "0")))
 			}
+		} else if e.Contract == nil || !e.Contract.Flag("nilcheck-params") {
+			// pointer and interface parameters are trusted non-nil where dereferenced (listed assumption)
+			v.NN = true
 		}
 		args = append(args, v)
 	}
